@@ -10,7 +10,7 @@ from checks import _pathspace as ps
 ID = "C02"
 TITLE = "Reported probability is the model probability of the reported path"
 MANIFEST = {
-    "text": "For every graph on 2-3 placed nodes (two alphabets), every 4-node graph with <= 3 edges (thorough <= 4), twelve named 4-5 node "
+    "text": "For every graph on 2-3 placed nodes (two alphabets), every 4-node graph with <= 3 edges (thorough <= 4), 26 named 4-12 node "
             "graphs (chains, cycles, star, complete) whose traces force non-emitting runs of depth 2-3, every trace of length <= 3 "
             "(4 thorough) and a configuration list covering 3 families x non-emitting on/off x going-back penalties on/off x cut-offs x "
             "widths {None,1,2} x separate non-emitting noise, the best path returned by the real matcher is re-scored state by state in "
@@ -23,6 +23,8 @@ MANIFEST = {
             "minimum. Known finding D14 (stale child score after widening) is recognised only by its exact predicate.",
     "technique": "bounded-exhaustive enumeration of inputs x configurations and of operation histories, replay of the implementation's path in a reference model",
 }
+MANIFEST["text"] += " " + (
+    'Added after the seeding waves: the geometry fields of path states (edge_m.pi, edge_o.pi, dist_obs) are judged here too; a matcher object re-used for another trace (operation N); the recorded input of known finding D14 is part of every run.')
 BUDGET = {"quick": 420, "thorough": 3000}
 RULE = ("cases = (graph) for one-shot runs and (graph) for histories; states = path states re-scored, transitions = path steps "
         "re-scored, traces validated = best paths replayed in the model; non-trivial = the path contains a non-emitting state, a "
